@@ -1203,13 +1203,13 @@ for _cls, _nm in ((EXCC, "C"), (EXCPP, "CPP")):
 
 
 # ---- C18 across parses: a custom unit means what the CURRENT text defines, whatever an earlier text in the same process called so ------
-@contract(DIPC + ".parse", ["C18", "C09"], name="DIP.parse[custom-unit-redefined-by-a-later-text]")
+@contract(DIPC + ".parse", ["C18", "C09", "C14"], name="DIP.parse[custom-unit-redefined-by-a-later-text]")
 def _(c):
     c.bound = "an earlier parse defined and used a unit of the same name with another size; referenced values symbolic"
 
     def pre(b):
         d1 = b.new(DIPC, name="first")
-        b.call(b.getattr(d1, "add_string"), '$unit len = 2 m\np float = 3 [len]\nq float = ("{?p} + 1 [len]") m')
+        b.call(b.getattr(d1, "add_string"), '$unit len = 2 m\np float = 3 [len]\np = 8 m\np = 50 cm\nq float = ("{?p} + 1 [len]") m')
         b.call(b.getattr(d1, "parse"))
         d, env, S = prestate2(b, PRE18, '$unit len = 5 m\nx float = ("{?a} + 1 [len]") m\ny float = 2 [len]\ny = {?b}\nz bool = ("1 [len] > 4 m")')
         return dict(args=[d], env=dict(S=S))
